@@ -218,12 +218,15 @@ def run_seed(w, d):
 def main_seeds(a):
     import glob, queue, threading
     seeds = sorted(glob.glob(os.path.join(VERIF, "seeded", "*", "")))
+    only = [x for x in os.environ.get("SEEDS_ONLY", "").split(",") if x]
+    if only:
+        seeds = [d for d in seeds if any(os.path.basename(d.rstrip("/")).startswith(o) for o in only)]
     os.makedirs(a.work, exist_ok=True)
     workers = [Worker(i, a.work, a.threads) for i in range(a.workers)]
     q = queue.Queue()
     for d in seeds:
         q.put(d)
-    res, lock = {}, threading.Lock()
+    res, lock = (json.load(open(a.out)) if os.path.exists(a.out) else {}), threading.Lock()
     def loop(w):
         while True:
             try:
